@@ -14,7 +14,8 @@ CLAIMS = {
              "between the exit and return; Anderson extrapolation returns the same "
              "affine combination of both buffers; L-BFGS fun/jac are value/gradient of "
              "the same terms. Does not decide that score <= tol implies "
-             "eps-stationarity numerically.",
+             "eps-stationarity numerically."
+             " Every definition of the returned stopping value inside the budget loop is one the outer tolerance test sees; the intercept gradient enters through an entrywise absolute value taken before any reduction over tasks.",
         design_ref="DESIGN.md §3.1 R-ZERO/R-CERT/R-FRESH/R-ANDERSON, §4 C01",
         note="Trusted: CPython ast; positional role seeds at BaseSolver._solve; slot "
              "method names of the datafit/penalty interface. Formulas inside the score "
@@ -35,7 +36,8 @@ CLAIMS = {
              "after each update, the slope in |w_j| of the outer penalty's own value() at the "
              "current coefficients (negative, positive and zero coefficients; every penalty "
              "offering `derivative`), i.e. the inner problem is a tangent majoriser. Does not "
-             "decide monotonicity of the numerical objective.",
+             "decide monotonicity of the numerical objective."
+             " Line searches: every in-place move that depends on the step uses the same (step - prev_step) factor for iterate and model fit, and the step is saved before it is halved; an accepted candidate that is recomputed by a matrix product is built from the candidate coefficients only.",
         design_ref="DESIGN.md §3.1 R-GUARD/R-STEP/R-LS/R-REWEIGHT, §4 C03",
         note="Assumes prox exactness and validity of L_k (C07/C09). Backtracking "
              "exhaustion fallback (`else: pass`) is reported as a note.",
@@ -51,7 +53,8 @@ CLAIMS = {
              "on infeasible points (so the acceptance guard can reject them); the positive "
              "flag reaches every prox helper and every score; the lifted block prox of every "
              "positive group penalty is non-negative on every sign region of a two-coefficient "
-             "block, zero group weight included. Does not decide finiteness under overflow.",
+             "block, zero group weight included. Does not decide finiteness under overflow."
+             " generalized_support is True wherever the lifted prox moves the point (infeasible warm starts are kept in the working set); the lifted value() of positive group penalties is +inf exactly on negative coefficients, zero group weights included.",
         design_ref="DESIGN.md §3.6 R-INF/R-POS/R-WRITE, §4 C04",
         note="Order-region evaluation of the projection helpers (R-REGION) is part of the "
              "algebraic tier (C07).",
@@ -67,7 +70,8 @@ CLAIMS = {
              "copies, and every model fit handed to solve is zeros-with-zero-start, the "
              "in-place buffer or the template X @ w[:p] + fit_intercept * w[-1]; _glm_fit's "
              "warm start follows the same template and reads fitted state only under "
-             "warm_start; no solver object is cached across calls.",
+             "warm_start; no solver object is cached across calls."
+             " A model-fit buffer created once before a path loop is paired only with zero starts, copies of the previous column, or is recomputed on the way to solve.",
         design_ref="DESIGN.md §3.1 R-NONE/R-PAIR, §4 C05",
         note="That a warm-started run meets the certificate numerically is C01's undecided part.",
         technique="AST/CFG pattern rules with reaching definitions and effect summaries",
@@ -82,7 +86,8 @@ CLAIMS = {
              "multiple of the intercept gradient; lazy attributes set by initialize and "
              "initialize_sparse agree. Does not decide value() against the docstring formula, "
              "nor the internals of Cox's risk-set recursions (opaque operators), nor floating "
-             "point agreement.",
+             "point agreement."
+             " Dense and CSC gradient builders of every solver family are equal terms on a 3x3 design with structural zeros, non-contiguous groups and a permuted working set; Cox: raw_grad is the derivative of value(), the risk-set operators are adjoint pairs and match their definitions on six tie / censoring patterns under both conventions.",
         design_ref="DESIGN.md §2 L5, §3.5 R-SIB/R-DERIV, §4 C06",
         note="Trusted: identity list of sa/algebra.py, the lifting of CSC column loops to "
              "mask-weighted sums, domain table (Logistic labels in {-1,1}).",
@@ -139,7 +144,8 @@ CLAIMS = {
              "supremum of a varying one (Logistic 1/4, Huber 1); dense and CSC variants are "
              "equal terms (spectral norms are opaque atoms keyed by the matrix). Larger "
              "constants are accepted, smaller ones are violations. The accuracy of the power "
-             "method is not decided.",
+             "method is not decided."
+             " Cox: raw_hessian minus the Hessian diagonal of value() is a sum of positive terms on six tie / censoring patterns; the power iteration starts from a random draw; the CSC helpers behind sparse constants (sparse_columns_slice, X/X^T products) equal their dense meaning, empty columns included.",
         design_ref="DESIGN.md §3.5 R-LIPC, §4 C09",
         note="Cox and SqrtQuadratic are documented bounds (tabled, reason recorded).",
         technique="lifted-term comparison with constant-ratio extraction",
@@ -152,7 +158,8 @@ CLAIMS = {
              "all shared accessors, group gradient accessors == stacked scalar accessors, as "
              "equalities of lifted terms; every estimator fits through the same _glm_fit as "
              "GeneralizedLinearEstimator. Limit reductions, SLOPE vs L1, Efron vs Breslow, Gram "
-             "vs CD and replicated rows are not decided.",
+             "vs CD and replicated rows are not decided."
+             " Cox: without tied events the Efron terms are the Breslow terms (value, raw_grad, raw_hessian).",
         design_ref="DESIGN.md §3.5 R-RED, §4 C14",
         note="Same trusted base as C06.",
         technique="substitution on lifted terms + normal-form equality",
@@ -163,7 +170,8 @@ CLAIMS = {
              "sparse/dense dispatch calls a sibling pair with corresponding arguments; every "
              "input validation converts to CSC (no other sparse format reaches a kernel); "
              "float32 flag plumbing is under C11; solver objects store no state. Equality of "
-             "converged results is not decided.",
+             "converged results is not decided."
+             " The dense and CSC copies of every solver kernel (coordinate / block epochs, gradient builders, prox-Newton direction and line search) and the CSC helper functions are lifted on a 3x3 design with structural zeros (and an empty column for the helpers) and must leave equal terms in coefficients, model fit and returned arrays.",
         design_ref="DESIGN.md §3.2 R-CSC, §4 C10",
         note="Kernel-level dense/sparse agreement of formulas is decided under C06 (datafit "
              "accessors).",
@@ -188,7 +196,8 @@ CLAIMS = {
              "dual_coef_) is gathered from the per-class binary estimators; label-encoded "
              "targets are never compared with raw class labels and the +/-1 mapping is "
              "arithmetic on the encoded indices. Probability normalisation and monotonicity "
-             "are runtime behaviour of sklearn mix-ins and are not decided.",
+             "are runtime behaviour of sklearn mix-ins and are not decided."
+             " Which datafits make an estimator a classifier is decided by one subclass-aware isinstance test shared by fit and predict; no class-name test mentions a datafit that has subclasses.",
         design_ref="DESIGN.md §3.3 R-OVR, §4 C12",
         note="Structural necessary conditions only.",
         technique="AST rules on _glm_fit (last-assignment and kind-of-value checks)",
@@ -203,7 +212,8 @@ CLAIMS = {
              "(interpreter level); every self.<attr> of a jitclass is in its spec and lazy "
              "attributes are initialised for the storage mode; no local can be unbound at a "
              "use on a knob-consistent path. Does not decide numerical outcomes of accepted "
-             "cells; extent (shape) agreement is under C20.",
+             "cells; extent (shape) agreement is under C20."
+             " A solver that never reads its datafit argument accepts only None or the loss it hard-codes.",
         design_ref="DESIGN.md §3.2 R-REQ/R-SLOT/R-SPEC/R-MATRIX, §4 C13",
         note="check_attrs semantics (hasattr(obj, name+suffix)) is re-verified against "
              "validation.py on every run.",
@@ -219,7 +229,8 @@ CLAIMS = {
              "and penalties (~675 typed subscripts); the coordinate passed to a prox is the "
              "feature/group, never its position in the working set; grp_converter only applies "
              "order-preserving operations to the group specification. Equivariance of converged "
-             "solutions and scaling laws are numerical and not decided.",
+             "solutions and scaling laws are numerical and not decided."
+             " No comparison against an absolute literal threshold (0 < |c| < 1e-3) anywhere in library code.",
         design_ref="DESIGN.md §2 L4, §3.4 R-IDX, §4 C15",
         note="Unknown kinds never raise alarms; only definite contradictions do.",
         technique="belief-style index-domain inference (unification of index kinds with axis "
@@ -232,7 +243,8 @@ CLAIMS = {
              "domain (feature / group) the solver indexes them by; `a[:-1]` and `a[-1]` on "
              "coefficient arrays occur only under the intercept flag; offset subscripts of "
              "pointer arrays (indptr[j+1], grp_ptr[g+1]) are within the loop bound. "
-             "Value-dependent indices (contents of user arrays) are an input contract.",
+             "Value-dependent indices (contents of user arrays) are an input contract."
+             " Across calls: a kernel that indexes a parameter by coordinates is never handed an array restricted to the working set; initialize / initialize_sparse is control-dependent on the storage dispatch only, so lazy attributes of earlier data are never read.",
         design_ref="DESIGN.md §2 L4, §3.4 R-IDX/R-SLICE, §4 C20",
         note="Extents are symbols with +/-1 offsets; G <= P is never assumed.",
         technique="index-domain inference + linear offset comparison of loop bounds and "
@@ -271,7 +283,8 @@ CLAIMS = {
              "arrays only in initialize*; estimators never rebind constructor attributes, "
              "read fitted state only under warm_start; no globals/module containers; the only "
              "cache is the class factory keyed by all its parameters; compiled_clone returns "
-             "a fresh instance; solver objects are immutable after construction.",
+             "a fresh instance; solver objects are immutable after construction."
+             " Validation helpers that may return their argument are not copies (stores after check_array / asarray count as stores into the caller's array, by reaching definitions); solver locals that may alias a constructor array are never updated in place, directly or in a callee; no hand-made module-level cache; the datafit is re-initialised on every solve.",
         design_ref="DESIGN.md §3.3 R-STATE/R-PURE, §4 C18",
         note="Equality of results across fit histories follows from purity plus kernel "
              "determinism; the RNG draw in spectral_norm is reported as a note.",
@@ -283,7 +296,8 @@ CLAIMS = {
              "data (Lipschitz constants, norms, Gram diagonal) is dominated by a non-zero "
              "fact (or is a tabled exemption with a reason), and that every loop is bounded "
              "(for over ranges/arrays; the two while loops have recorded variants). "
-             "Finiteness under overflow is not decided.",
+             "Finiteness under overflow is not decided."
+             " No absolute-epsilon guard; the only tabled division exemptions are per construct.",
         design_ref="DESIGN.md §3.1 R-DIV/R-LOOP, §4 C19",
         note="numpy-level divisions (inf, no exception) at interpreter level are accepted "
              "unless the denominator is a Python float returned by a jitclass method.",
